@@ -52,6 +52,87 @@ pub fn vardb_of(job: &Value) -> VarDb {
     db
 }
 
+/// A canonical substitution from a list of generic arguments whose unknowns are ^0.i
+fn canon_subst(v: &Value) -> Canonical<Substitution<ChalkIr>> {
+    let args: Vec<GenericArg<ChalkIr>> = v.as_array().map(|a| a.iter().map(arg_of).collect()).unwrap_or_default();
+    // binders: one per distinct bound index, kind taken from its first occurrence
+    let mut kinds: Vec<(usize, VariableKind<ChalkIr>)> = Vec::new();
+    fn walk(v: &Value, kinds: &mut Vec<(usize, VariableKind<ChalkIr>)>) {
+        let k = v["k"].as_str().unwrap_or("");
+        let m = v["m"].as_u64().unwrap_or(0) as usize;
+        let kind = match k {
+            "bound" => Some(VariableKind::Ty(TyVariableKind::General)),
+            "lbound" => Some(VariableKind::Lifetime),
+            "cbound" => Some(VariableKind::Const(TyKind::Scalar(Scalar::Uint(UintTy::Usize)).intern(ChalkIr))),
+            _ => None,
+        };
+        if let Some(kind) = kind {
+            if !kinds.iter().any(|(i, _)| *i == m) {
+                kinds.push((m, kind));
+            }
+        }
+        if let Some(a) = v["a"].as_array() {
+            for x in a {
+                walk(x, kinds);
+            }
+        }
+    }
+    if let Some(a) = v.as_array() {
+        for x in a {
+            walk(x, &mut kinds);
+        }
+    }
+    kinds.sort_by_key(|(i, _)| *i);
+    Canonical {
+        binders: CanonicalVarKinds::from_iter(ChalkIr, kinds.into_iter().map(|(_, k)| WithKind::new(k, UniverseIndex::ROOT))),
+        value: Substitution::from_iter(ChalkIr, args),
+    }
+}
+
+fn subst_by_id(id: u64) -> Canonical<Substitution<ChalkIr>> {
+    // 1, 2: two different closed substitutions; 3: the identity substitution of one variable
+    let s = match id {
+        1 => json!([{"k":"scalar","n":4,"m":0,"a":[]}]),
+        2 => json!([{"k":"scalar","n":3,"m":0,"a":[]}]),
+        _ => json!([{"k":"bound","n":0,"m":0,"a":[]}]),
+    };
+    canon_subst(&s)
+}
+
+fn solution_of(v: &Value) -> chalk_solve::Solution<ChalkIr> {
+    use chalk_solve::{Guidance, Solution};
+    let s = subst_by_id(v["s"].as_u64().unwrap_or(0));
+    match v["kind"].as_str().unwrap_or("") {
+        "Unique" => Solution::Unique(Canonical {
+            binders: s.binders.clone(),
+            value: ConstrainedSubst { subst: s.value.clone(), constraints: Constraints::empty(ChalkIr) },
+        }),
+        "Definite" => Solution::Ambig(Guidance::Definite(s)),
+        "Suggested" => Solution::Ambig(Guidance::Suggested(s)),
+        _ => Solution::Ambig(Guidance::Unknown),
+    }
+}
+fn solution_kind(s: &chalk_solve::Solution<ChalkIr>) -> &'static str {
+    use chalk_solve::{Guidance, Solution};
+    match s {
+        Solution::Unique(_) => "Unique",
+        Solution::Ambig(Guidance::Definite(_)) => "Definite",
+        Solution::Ambig(Guidance::Suggested(_)) => "Suggested",
+        Solution::Ambig(Guidance::Unknown) => "Unknown",
+    }
+}
+fn subst_in(s: &chalk_solve::Solution<ChalkIr>) -> Option<Substitution<ChalkIr>> {
+    use chalk_solve::{Guidance, Solution};
+    match s {
+        Solution::Unique(c) => Some(c.value.subst.clone()),
+        Solution::Ambig(Guidance::Definite(c)) | Solution::Ambig(Guidance::Suggested(c)) => Some(c.value.clone()),
+        Solution::Ambig(Guidance::Unknown) => None,
+    }
+}
+fn same_subst(a: &chalk_solve::Solution<ChalkIr>, b: &chalk_solve::Solution<ChalkIr>) -> bool {
+    subst_in(a).is_some() && subst_in(a) == subst_in(b)
+}
+
 struct Nop;
 impl FallibleTypeFolder<ChalkIr> for Nop {
     type Error = ();
@@ -93,6 +174,42 @@ fn run_item(db: &VarDb, it: &Value) -> Value {
             let a: Vec<GenericArg<ChalkIr>> = it["a"].as_array().map(|x| x.iter().map(arg_of).collect()).unwrap_or_default();
             let b: Vec<GenericArg<ChalkIr>> = it["b"].as_array().map(|x| x.iter().map(arg_of).collect()).unwrap_or_default();
             json!({"r": a.as_slice().could_match(ChalkIr, db, b.as_slice())})
+        }
+        "merge" => {
+            // cur / new: canonical substitutions (unknowns = ^0.i); root: binder kinds of the root goal
+            let cur = canon_subst(&it["cur"]);
+            let new = canon_subst(&it["new"]);
+            let answer = Canonical {
+                binders: new.binders.clone(),
+                value: ConstrainedSubst { subst: new.value.clone(), constraints: Constraints::empty(ChalkIr) },
+            };
+            let nargs = cur.value.len(ChalkIr);
+            let root: Canonical<InEnvironment<Goal<ChalkIr>>> = Canonical {
+                binders: CanonicalVarKinds::from_iter(
+                    ChalkIr,
+                    cur.value.iter(ChalkIr).take(nargs).map(|g| {
+                        let kind = match g.data(ChalkIr) {
+                            GenericArgData::Ty(_) => VariableKind::Ty(TyVariableKind::General),
+                            GenericArgData::Lifetime(_) => VariableKind::Lifetime,
+                            GenericArgData::Const(c) => VariableKind::Const(c.data(ChalkIr).ty.clone()),
+                        };
+                        WithKind::new(kind, UniverseIndex::ROOT)
+                    }),
+                ),
+                value: InEnvironment::new(&Environment::new(ChalkIr), GoalData::CannotProve.intern(ChalkIr)),
+            };
+            let merged = chalk_engine::slg::verif_merge_into_guidance(ChalkIr, &root, cur.clone(), &answer);
+            let mi = chalk_engine::slg::verif_may_invalidate(ChalkIr, &new.value, &cur);
+            json!({"merged": merged.value.iter(ChalkIr).map(arg_json).collect::<Vec<_>>(),
+                   "nbinders": merged.binders.len(ChalkIr), "may_invalidate": mi})
+        }
+        "combine" => {
+            let x = solution_of(&it["x"]);
+            let y = solution_of(&it["y"]);
+            let r = x.clone().combine(y.clone(), ChalkIr);
+            let r2 = y.clone().combine(x.clone(), ChalkIr);
+            json!({"kind": solution_kind(&r), "eq_x": r == x, "eq_y": r == y, "sym": r == r2,
+                   "subst_of_x": same_subst(&r, &x), "subst_of_y": same_subst(&r, &y)})
         }
         other => json!({"error": format!("unknown op {}", other)}),
     }
